@@ -581,3 +581,62 @@ Theorem C16_source_squash_genes : forall ignore squash_antitarget rows,
   squash_genes ignore squash_antitarget rows
   = flat_map (py_squash_iter squash_antitarget) (by_gene ignore rows).
 Proof. exact source_squash_genes. Qed.
+
+(* ==== SOURCE TIES, wave e4 (tools/fnspecs/c16_e4.py) ====
+   do_genemetrics' control flow and closing filter (cnvlib/reports.py), squash_rows nested in squash_genes
+   (cnvlib/cnary.py), translated from the source text on every run (Gen/FnGenemetricsFlow.v, FnGenemetricsKeep.v,
+   FnGenesSquashRows.v). *)
+From CNV Require Import Proofs.FnGenemetricsFlow Proofs.FnGenemetricsKeep Proofs.FnGenesSquashRows.
+From CNV Require Gen.FnGenemetricsFlow Gen.FnGenemetricsKeep Gen.FnGenesSquashRows.
+
+(* the dispatch: both tables are shifted with (reference flag, sex, build) BEFORE the rows are made; the rows are
+   gene_metrics_by_segment's exactly when there are segments.  Tables are opaque ids read back by
+   FnGenemetricsFlow.rows_of; do_genemetrics filters exactly the rows of the generated dispatch *)
+Theorem C16_source_gm_dispatch : forall rows segs th mp sl hap fem (build : Z) (guess : option bool),
+  do_genemetrics rows segs th mp sl hap fem =
+  let table := rows_of rows segs th sl hap fem (fst (py_dispatch segs th sl hap fem build (Some fem) guess)) in
+  if mp =? 0 then table else filter (fun r => mp <=? n_probes r) table.
+Proof. exact source_gm_dispatch. Qed.
+
+(* without a given sex the guess takes its place, in the same dispatch *)
+Theorem C16_source_gm_dispatch_guess : forall rows segs th sl hap fem (build : Z),
+  rows_of rows segs th sl hap fem (fst (py_dispatch segs th sl hap fem build None (Some fem)))
+  = model_rows rows segs th sl hap fem.
+Proof. exact source_gm_dispatch_guess. Qed.
+
+(* the sex of the full model (female_for_bins: given, else guessed) is the generated one *)
+Theorem C16_source_gm_female : forall gstat (o : gm_opts) rows (segs : Z) th sl (build : Z),
+  female_for_bins gstat o rows =
+  snd (Gen.FnGenemetricsFlow.fn_gm_dispatch 1 segs th sl (o_hap o) (o_female o) build
+         (guess_of gstat true true (o_hap o) (o_build o) rows)
+         (fun id _ _ _ => id) (fun _ _ _ _ => 0) (fun _ _ _ => 0)).
+Proof. exact source_gm_female. Qed.
+
+(* the closing filter, per row: kept unless min_probes is set, the table has rows and the row's probe count is below it *)
+Theorem C16_source_gm_keep : forall (mp : Z) (table : list grow),
+  (if mp =? 0 then table else filter (fun r => mp <=? n_probes r) table) = filter (py_keep mp table) table.
+Proof. exact source_gm_keep. Qed.
+
+(* do_genemetrics = the generated dispatch followed by the generated filter *)
+Theorem C16_source_do_genemetrics : forall rows segs th mp sl hap fem (build : Z) (guess : option bool),
+  do_genemetrics rows segs th mp sl hap fem =
+  let table := rows_of rows segs th sl hap fem (fst (py_dispatch segs th sl hap fem build (Some fem) guess)) in
+  filter (py_keep mp table) table.
+Proof. exact source_do_genemetrics. Qed.
+
+(* squash_rows: start of the first row, end of the last, one summary cell per extra field the table has *)
+Theorem C16_source_squash_values : forall (est : list Q -> Q) (ccols : list string) (name : string) (b0 : bin) (rows : list bin),
+  let l := last rows b0 in
+  let '(s, e) := Gen.FnGenesSquashRows.fn_squash_rows_span (b_start b0) (b_start l) (b_end b0) (b_end l) in
+  squash_values est ccols name b0 rows =
+  [CS (b_chr b0); CZ s; CZ e; CS name; CQ (Some (est (map b_log2 rows)))]
+  ++ flat_map (py_xfield_cells est ccols rows) SQUASH_XFIELDS
+  ++ (if mem_string COL_PROBES ccols then [CZ (sumZ (map b_probes rows))] else []).
+Proof. exact source_squash_values. Qed.
+
+(* the id reading is not vacuous: a run of the generated dispatch with and without segments *)
+Example ex_source_gm_dispatch :
+  fst (py_dispatch (Some [ex_seg "chr1" 0 10 1]) (1 # 5) false false true 7 (Some true) None) = 6 /\
+  fst (py_dispatch None (1 # 5) false false true 7 (Some true) None) = 5 /\
+  fst (py_dispatch (Some []) (1 # 5) false false true 7 None (Some true)) = 5.
+Proof. vm_compute. repeat split; reflexivity. Qed.
